@@ -87,7 +87,7 @@ theorem c02_dropped (g : Gw) (dup retain : Bool) (q : UInt8) (mid : UInt16) (top
 /-- **C02.** No ID yet (QoS 1/2): REGISTER for that name first, the PUBLISH is parked under the new ID. -/
 theorem c02_register_first (g g' : Gw) (dup retain : Bool) (q : UInt8) (mid newId : UInt16) (topic payload : Bytes)
     (hl : payload.length ≤ Gen.MaxPayloadLength ∧ topic.length ≤ Gen.MaxPayloadLength) (hne : topic ≠ [])
-    (hb : g.brokerTopicId topic = none) (hq : q = 1 ∨ q = 2) (ha : g.newTopicId = (some newId, g')) :
+    (hb : g.brokerTopicId topic = none) (hq : q = 1 ∨ q = 2) (ha : g.registrationTopicId topic = (some newId, g')) :
     g.handleBrokerPublish dup q retain mid topic payload =
       g'.startBrokerPub q mid .awaitingRegack (some (.publish dup q retain 0 newId mid payload)) .awaitingRegack
         (.register newId mid topic) := by
